@@ -143,7 +143,9 @@ def statsAnswer (ops : KindOps) (stl cil wbs rowlimit : Nat) (batches : List (Li
     if order = 1 then sortedBy ops.specLe mins && sortedBy ops.specLe maxs
     else if order = 2 then sortedBy (fun a b => ops.specLe b a) mins && sortedBy (fun a b => ops.specLe b a) maxs
     else true
-  if okChunk && okPages && okTrunc && okEmitted && okOrder then model
+  -- the verdict is about what the file shows (emitted chunk bounds, emitted page bounds, declared order);
+  -- the untruncated intermediate values are reported for information only
+  if okTrunc && okEmitted && okOrder then model
   else s!"MODEL-SPEC-MISMATCH model={model} spec=bounds(chunk={showBool okChunk},pages={showBool okPages},truncated={showBool okTrunc},emitted={showBool okEmitted},order={showBool okOrder})"
 
 def showBlocks (blocks : List (List Nat)) : String :=
